@@ -252,6 +252,31 @@ def expand (db : Db) (sch : Schema) : Loader → List Load
 
 def applyLoader (db : Db) (sch : Schema) (s : Sess) (l : Loader) : Sess := (expand db sch l).foldl (applyLoad db) s
 
+/-! ### loaded container values are bound to their object -/
+
+/-- how a column value got into `obj._vals_`: every loading path converts the database value with `dbval2val(dbval, obj)`, which wraps a
+    Json / array value into a tracked container bound to `(obj, attr)`; `bound = false` models a path that forgets `obj` -/
+inductive LoadPath where
+  | eagerRow      -- `_db_set_` of a fetched row (`Entity._load_`, `_fetch_objects`, prefetch, a query naming the attribute)
+  | lazyAccess    -- `Attribute.load` → `Attribute.db_set` (the attribute access itself fetches a lazy attribute)
+  deriving DecidableEq, Repr
+
+/-- a loaded container value: its content and whether it is a tracked wrapper bound to the object -/
+structure Loaded where
+  content : List Int
+  bound : Bool
+  deriving DecidableEq, Repr
+
+/-- `boundOn p` = does path `p` pass `obj` to `dbval2val` (regenerated from the source: `Gen.LoadDecisions.dbSetBindsObj`, `rowSetBindsObj`) -/
+def loadVia (boundOn : LoadPath → Bool) (p : LoadPath) (dbContent : List Int) : Loaded := ⟨dbContent, boundOn p⟩
+
+/-- an in-place change (`obj.j['k'] = v`, `obj.arr.append(x)`): the new content, and whether the object is marked modified
+    (`TrackedValue._changed_` → `obj._attr_changed_(attr)`) — only a bound container notifies -/
+def mutate (v : Loaded) (f : List Int → List Int) : Loaded × Bool := (⟨f v.content, v.bound⟩, v.bound)
+
+/-- what the commit writes for the attribute: the changed content if the object was marked modified, else nothing (the database keeps its value) -/
+def committed (dbContent : List Int) (r : Loaded × Bool) : List Int := if r.2 then r.1.content else dbContent
+
 /-! ### merging link rows into a collection that has PENDING changes (a modifying session) -/
 
 /-- what the session holds for one member of a many-to-many batch load: the items known so far and the member's own unflushed
